@@ -579,6 +579,14 @@ func (repo *Repository) VerifyMerkleProof(ctx context.Context,
 		return -1, false, merkle_proof.ErrNotVerifiable
 	}
 
+	// The index selects left or right at each level of the path. Verify ignores index bits above
+	// the path's depth, so an index that is not a position in a tree of that depth must be refused
+	// here.
+	depth := len(proof.Path) + len(proof.DuplicatedIndexes)
+	if proof.Index < 0 || (depth < 63 && proof.Index>>uint(depth) != 0) {
+		return -1, false, errors.Wrap(merkle_proof.ErrBadIndex, "merkle proof")
+	}
+
 	if err := proof.Verify(); err != nil {
 		return -1, false, errors.Wrap(err, "merkle proof")
 	}
